@@ -5,6 +5,7 @@
 // Textual-scope macros: shadow `tracing::{debug,warn,error}` (no subscriber: no observable effect) and
 // `format!` (message text only ever ends up inside error values the harnesses do not inspect).
 macro_rules! debug { ($($t:tt)*) => {{}}; }
+macro_rules! trace { ($($t:tt)*) => {{}}; }
 macro_rules! warn { ($($t:tt)*) => {{}}; }
 macro_rules! error { ($($t:tt)*) => {{}}; }
 macro_rules! format { ($($t:tt)*) => { String::new() }; }
@@ -16,5 +17,22 @@ pub mod shim_consts {
 }
 pub mod shim;
 pub mod gen_brl;
+pub mod lshim;
+pub mod gen_leader;
+pub mod rshim;
+pub mod gen_repl;
+
+/// exact-size Vec of 0..=3 elements (no push: see DESIGN 2b)
+pub fn h_vec3<T>(n: usize, mut f: impl FnMut(usize) -> T) -> Vec<T> {
+    match n {
+        0 => Vec::new(),
+        1 => vec![f(0)],
+        2 => vec![f(0), f(1)],
+        3 => vec![f(0), f(1), f(2)],
+        _ => panic!("h_vec3: more than 3 elements"),
+    }
+}
+#[cfg(kani)]
+mod h_shim;
 #[cfg(all(kani, test))]
 mod playback_gen;
